@@ -355,8 +355,10 @@ def mutate(rng, t):
         if not b:
             b = bytearray(b"v=0\r\n")
         pos = rng.randrange(len(b))
-        op = rng.randrange(6)
-        if op == 0:
+        op = rng.randrange(7)
+        if op == 6:
+            b[pos:pos] = rng.choice(["\u00e9", "\u20ac", "\U0001F600", "\u540d"]).encode()      # may still cut an existing character: then NOT-UTF8
+        elif op == 0:
             b[pos] = rng.choice(b"0123456789:/ =|^;\r\n-")
         elif op == 1:
             del b[pos:pos + rng.randrange(1, 8)]
@@ -394,6 +396,19 @@ def gen_cases(rng, tier):
     ]
     for i, t in enumerate(special):
         cases.append(["x%d" % i, "c19", "txt", t.encode().hex(), ""])
+    # multi-byte characters at every offset of the first bytes of a line (the type letter, the '=', the first value byte), alone and
+    # inside a description: any UTF-8 text gives a description or an error
+    k = 0
+    good = "v=0\r\no=- 1 1 IN IP4 1.2.3.4\r\ns=-\r\nt=0 0\r\n"
+    for ch in ("\u00e9", "\u20ac", "\U0001F600", "\u00a0"):
+        for line in ("v=0", "s=-", "a=x", "m=audio 9 RTP/AVP 0", "", "ab", "a", "c=IN IP4 1.2.3.4", "a=candidate:1 1 UDP 1 1.2.3.4 9 typ host"):
+            for pos in range(0, min(len(line), 4) + 1):
+                l = line[:pos] + ch + line[pos:]
+                for t in (l, l + "\r\n", good + l + "\r\n", good + "m=audio 9 RTP/AVP 0\r\n" + l + "\r\n", l + "\r\n" + good, good + l):
+                    if tier == "quick" and k % 3 and t != l + "\r\n":
+                        k += 1
+                        continue
+                    cases.append(["u%d" % k, "c19", "txt", t.encode().hex(), ""]); k += 1
     # mutated and random texts: no panic, and whatever parses must survive print -> parse
     base = [text_of(g_session(rng)) for _ in range(40)]
     for i in range(600 if tier == "quick" else 20000):
